@@ -1,6 +1,8 @@
 import typing
 import warnings
 
+from river.base import Estimator as RiverEstimator
+
 from ixai.utils.wrappers.base import Wrapper
 from ixai.utils.wrappers import SklearnWrapper, TorchWrapper, RiverWrapper
 
@@ -10,6 +12,8 @@ def validate_model_function(model_function: typing.Any) -> typing.Callable:
         return model_function  # we assume the wrapper is applied correctly
 
     try:
+        if isinstance(model_function.__self__, RiverEstimator):  # incl. river.compat.SKL2River*
+            return RiverWrapper(prediction_function=model_function)
         function_name = str(type(model_function.__self__))
         if 'sklearn' in function_name:
             return SklearnWrapper(prediction_function=model_function)
